@@ -792,6 +792,36 @@ pub fn family_cluster() -> Vec<PProblem> {
     out
 }
 
+/// Clusters which span several locations (the members are reached on foot: commute records, parking), both visiting
+/// policies, every serving policy; the matrix is asymmetric, so forward and backward commutes differ.
+pub fn family_cluster_walk() -> Vec<PProblem> {
+    use TaskKind::*;
+    let mut out = vec![];
+    let servings = vec![json!({"type": "original", "parking": 5.0}), json!({"type": "multiplier", "value": 0.5, "parking": 0.0}), json!({"type": "fixed", "value": 1.0, "parking": 2.0})];
+    for (pi, pos) in [[0i64, 50, 53, 57, 120], [0, 40, 42, 90, 93]].iter().enumerate() {
+        for (si, serving) in servings.iter().enumerate() {
+            for visiting in ["continue", "return"] {
+                for cap in [4i64, 2] {
+                    let jobs = vec![
+                        job("w1", vec![task(Delivery, vec![place(1, 3., &[], None)], &[1])]),
+                        job("w2", vec![task(Delivery, vec![place(2, 2., &[], None)], &[1])]),
+                        job("w3", vec![task(Delivery, vec![place(3, 2., &[], None)], &[1])]),
+                        job("w4", vec![task(Pickup, vec![place(4, 1., &[], None)], &[1])]),
+                    ];
+                    let mut p = base(format!("cluster/walk/p{pi}/s{si}/{visiting}/c{cap}"), jobs, vec![vehicle_type("v", 2, &[cap], vec![shift(ShiftKind::Closed)])]);
+                    p.matrices = vec![line_matrix("car", pos)];
+                    p.clustering = Some(json!({
+                        "type": "vicinity", "profile": {"matrix": "car"}, "threshold": {"duration": 30.0, "distance": 60.0},
+                        "visiting": visiting, "serving": serving,
+                    }));
+                    out.push(p);
+                }
+            }
+        }
+    }
+    out
+}
+
 /// Clustering x job attributes: jobs which end up in one cluster keep their own skills / group / compatibility needs
 /// (the cluster is served by one vehicle: it has to satisfy every member).
 pub fn family_cluster_attr() -> Vec<PProblem> {
